@@ -7,6 +7,7 @@
 import copy
 import random
 
+import numpy as np
 import tskit
 
 from harness import common, gen
@@ -14,20 +15,38 @@ from harness.common import QUICK, SEED, Check
 
 
 def drive(a, rng):
+    try:
+        return drive_(a, rng)
+    except Exception as e:
+        import traceback
+        return dict(error="%s: %s" % (type(e).__name__, e), tb=traceback.format_exc()[-1200:], a=a)
+
+
+def drive_(a, rng):
     kind = rng.choice(["id", "big"])
     cmap = gen.CMap(kind)
     scale = 2.0 ** 40 if kind == "big" else 1.0
     tmap = gen.CMap(rng.choice(["id", "third", "big"]), offset=rng.choice([0, 0, 3.5]))
     tables = gen.build_tables(dict(a, sites=[], muts=[]), cmap, tmap)
+    # scale knob: sometimes the same genealogy is placed after a block of isolated non-sample nodes, so that all
+    # node ids are large (pair keys a*N+b beyond 32 bits); results are shifted back before they are recorded
+    off = rng.choice([0, 0, 0, 0, 0, 50000, 70001]) if not a.get("_nopad") else 0
+    if off:
+        t2 = tskit.TableCollection(tables.sequence_length)
+        t2.nodes.set_columns(flags=np.concatenate([np.zeros(off, dtype=np.uint32), tables.nodes.flags]),
+                             time=np.concatenate([np.zeros(off), tables.nodes.time]))
+        t2.edges.set_columns(left=tables.edges.left, right=tables.edges.right, parent=tables.edges.parent + off, child=tables.edges.child + off)
+        t2.build_index()
+        tables = t2
     ts = tables.tree_sequence()
-    N = ts.num_nodes
+    N = ts.num_nodes - off
     case = dict(ts=dict(L=a["L"], time=[2 * t for t in a["time"]], flags=a["flags"], edges=a["edges"]))
     if rng.random() < 0.6 or N < 3:
         within = rng.sample(range(N), rng.randint(2, min(5, N))) if rng.random() < 0.85 else None
         case["mode"] = "within"
-        case["within"] = within if within is not None else [int(u) for u in ts.samples()]
+        case["within"] = within if within is not None else [int(u) - off for u in ts.samples()]
         case["between"] = []
-        kw = dict(within=within)
+        kw = dict(within=None if within is None else [u + off for u in within])
     else:
         nodes = rng.sample(range(N), rng.randint(2, min(6, N)))
         k = rng.randint(2, min(3, len(nodes)))
@@ -40,13 +59,14 @@ def drive(a, rng):
         case["mode"] = "between"
         case["within"] = []
         case["between"] = groups
-        kw = dict(between=groups)
+        kw = dict(between=[[u + off for u in g] for g in groups])
     ms = rng.choice([0, 0, 0, 1, 2])
     mt2 = rng.choice([-1, -1] + list(range(0, 2 * max(a["time"]) + 3)))
     sp = rng.random() < 0.8
     ss = rng.random() < 0.7
     if ss and not sp and rng.random() < 0.5:
         sp = True
+    case["id_offset"] = off
     case.update(min_span=ms, max_time2=mt2, store_pairs=1 if sp else 0, store_segments=1 if ss else 0)
     r = ts.ibd_segments(min_span=ms * scale if ms else (0 if rng.random() < 0.5 else None),
                         max_time=tmap(mt2 / 2) if mt2 != -1 else None, store_pairs=sp, store_segments=ss, **kw)
@@ -59,12 +79,12 @@ def drive(a, rng):
     pairs = []
     if sp or ss:
         for (x, y), sl in r.items():
-            x, y = int(x), int(y)
+            x, y = int(x) - off, int(y) - off
             if x > y:
                 x, y = y, x
             rec = dict(a=x, b=y, num=len(sl), span=sint(sl.total_span), segs=[])
             if ss:
-                rec["segs"] = [[cmap.back(s.left), cmap.back(s.right), int(s.node)] for s in sl]
+                rec["segs"] = [[cmap.back(s.left), cmap.back(s.right), int(s.node) - off] for s in sl]
             pairs.append(rec)
         case["store_pairs"] = 1      # per-pair information is available whenever segments are stored
     case["pairs"] = pairs
@@ -83,6 +103,10 @@ def run():
     for i in range(1500 if QUICK else 25000):
         a = gen.random_abstract(rng, N=rng.randint(2, 8), K=rng.randint(1, 6), max_edges=14, nsites=0, nmuts=0)
         cases.append(drive(a, rng))
+    for c in [c for c in cases if "error" in c]:
+        chk.note_case(c["a"], True)
+        chk.violation("ibd_segments (or reading its result) raised on a valid input: %s\n%s" % (c["error"], c["tb"]), c)
+    cases = [c for c in cases if "error" not in c]
     corrupted = []
     for c in cases:
         if len(corrupted) >= 8:
